@@ -503,6 +503,18 @@ class ExprMixin:
                 self.emit(st, fx, "REGADDR", node, reg=base[1], key=key)
                 yield "ok", ("reg", base[1], key), st
                 return
+            if base[0] == "reg" and base[1] in getattr(self, "seq_registries", ()) and key == ("const", 0):
+                # q[0]: the head of the queue, looked at before it is taken (IndexError on an empty queue)
+                if not self._known_nonempty(base, st):
+                    s2 = st.fork()
+                    self.emit(s2, fx, "LOOKUP", node, reg=base[1], key=None, addr=base[2], hit=False, how="peek-empty")
+                    yield "raise", self.exc(s2, "IndexError", NONE), s2
+                t = st.heap.get((("peek",), base[1]))
+                if t is None:
+                    t = ("popped", base[1], st.uid())
+                    st.heap[(("peek",), base[1])] = t
+                yield "ok", t, st
+                return
             if base[0] == "reg":
                 known = (base[1], key) in st.hits or (isinstance(key, tuple) and key[0] == "keyof")
                 if not known:
@@ -525,13 +537,26 @@ class ExprMixin:
                         else:
                             yield "raise", self.exc(st, "KeyError", key), st
                         return
-                    # unknown key into a constant mapping: every value, or a miss
-                    s_miss = st.fork()
-                    self.emit(s_miss, fx, "CONSTMAP", node, obj=base, key=key, hit=False)
-                    yield "raise", self.exc(s_miss, "KeyError", key), s_miss
+                    # unknown key into a constant mapping: every value, or a miss - unless the path has already decided
+                    # (a membership test, an equality) which
+                    known = {k: self.truth(("cmp", "==", key, const(k)), st) for k in v}
+                    sure = [k for k in v if known[k] is True]
+                    if not sure and not (known and all(x is False for x in known.values()) and False):
+                        if not all(x is False for x in known.values()) or True:
+                            if not (st.facts.get(("cmp", "in", key, base)) is True):
+                                s_miss = st.fork()
+                                self.emit(s_miss, fx, "CONSTMAP", node, obj=base, key=key, hit=False)
+                                for k in v:
+                                    self.assume(("cmp", "==", key, const(k)), False, s_miss)
+                                yield "raise", self.exc(s_miss, "KeyError", key), s_miss
+                    if st.facts.get(("cmp", "in", key, base)) is False:
+                        return
                     for k in v:
+                        if known[k] is False or (sure and k not in sure):
+                            continue
                         s_k = st.fork()
                         self.emit(s_k, fx, "CONSTMAP", node, obj=base, key=key, hit=True, kval=k, val=v[k])
+                        self.assume(("cmp", "==", key, const(k)), True, s_k)
                         yield "ok", const(v[k]), s_k
                     return
                 if isinstance(v, (list, tuple)):
@@ -1048,6 +1073,32 @@ class ExprMixin:
                 yield "ok", None, s
                 continue
             text = ast.unparse(test)
+            if isinstance(t, tuple) and t[0] == "cmp" and t[1] in ("in", "not in") and isinstance(t[3], tuple) and t[3] and t[3][0] == "constobj":
+                try:
+                    cv = self.constobj_value(t[3])
+                except Exception:
+                    cv = None
+                if isinstance(cv, dict) and cv and len(cv) <= 32:
+                    # membership among the keys of a constant mapping: one of them (the later subscript is then a sure hit), or none
+                    key = t[2]
+                    for k in list(cv) + [None]:
+                        s2 = s.fork()
+                        if k is None:
+                            for k2 in cv:
+                                self.assume(("cmp", "==", key, const(k2)), False, s2)
+                            s2.facts[("cmp", "in", key, t[3])] = False
+                            self.emit(s2, fx, "CONSTMAP", test, obj=t[3], key=key, hit=False, how="in")
+                            pol = t[1] == "not in"
+                        else:
+                            if self.truth(("cmp", "==", key, const(k)), s2) is False:
+                                continue
+                            self.assume(("cmp", "==", key, const(k)), True, s2)
+                            s2.facts[("cmp", "in", key, t[3])] = True
+                            self.emit(s2, fx, "CONSTMAP", test, obj=t[3], key=key, hit=True, kval=k, val=cv[k], how="in")
+                            pol = t[1] == "in"
+                        s2.conds = s2.conds + (Cond(t, pol, fx.func.file, test.lineno, text),)
+                        yield "ok", pol, s2
+                    continue
             if isinstance(t, tuple) and t[0] == "cmp" and t[1] in ("in", "not in") and isinstance(t[3], tuple) and t[3] and t[3][0] == "functable":
                 # membership among the keys of a dispatch table: one of them, or none
                 tab = self.functable(t[3])
